@@ -9,6 +9,7 @@ all admissible schedules (enumerated, capped at 24 per specification), together 
 `deps_complete` (every possibly overlapping pair with a write is ordered)."""
 import glob
 import json
+import re
 import os
 import random
 from collections import Counter
@@ -59,19 +60,174 @@ def gather(run, rng, dist):
     return cases
 
 
+# ---------------------------------------------------------------------------------------------
+# the constant-offset decision of are_dependent: regenerated model (gen/gen_dep.py -> Gen/DepConst.v), theorem
+# C02_const_dependence_sound_*, differential tie and counterexample search
+
+DEP_KINDS = ["mstore", "mstore8", "mload0", "keccak2560", "sload0", "sstore"]
+DEP_OFFS = [0, 1, 2, 30, 31, 32, 33, 34, 62, 63, 64, 65, 95, 96, 97, 128, 1000]
+DEP_LENS = [0, 1, 2, 31, 32, 33, 63, 64, 65, 96]
+
+
+def _dep_tuple(kind, a, length):
+    """The access tuple are_dependent receives: ((addr, value, name),) for stores, ((addr, name),) for loads,
+    ((addr, length, name),) for KECCAK256 (length None = symbolic)."""
+    if kind.startswith(("mload", "sload")):
+        return ((a, kind), 1)
+    if kind.startswith("keccak"):
+        return ((a, "s(7)" if length is None else length, kind), 2)
+    return ((a, "s(9)", kind), 2)
+
+
+def _dep_worker(params, chunk):
+    import sfs_generator.gasol_optimization as go
+    go.init_globals()
+    go.extra_dep_info = {}
+    go.non_aliasing_disabled = False
+    out = []
+    for (k1, k2, a1, a2, l1, l2) in chunk:
+        loc = "storage" if k1.startswith("s") and not k1.startswith("sha") else "memory"
+        try:
+            out.append(bool(go.are_dependent(_dep_tuple(k1, a1, l1), _dep_tuple(k2, a2, l2), 0, 1, loc)))
+        except Exception as e:  # noqa
+            out.append("EXC %s: %s" % (type(e).__name__, str(e)[:80]))
+    return out
+
+
+def _dep_cases(rng, n):
+    mem = DEP_KINDS[:4]
+    sto = DEP_KINDS[4:]
+    cases = []
+    # systematic: every pair of kinds, offsets at distance -33..33 around 32 and 64, boundary lengths
+    for k1 in mem:
+        for k2 in mem:
+            for base in (32, 64):
+                for d in (-33, -32, -31, -1, 0, 1, 31, 32, 33):
+                    for ln in ((0, 1, 32, 33, None) if "keccak" in k1 + k2 else (32,)):
+                        cases.append((k1, k2, base, base + d, ln, ln))
+    for k1 in sto:
+        for k2 in sto:
+            for a1, a2 in ((0, 0), (0, 1), (5, 5), (7, 3)):
+                cases.append((k1, k2, a1, a2, 0, 0))
+    while len(cases) < n:
+        ks = mem if rng.random() < 0.85 else sto
+        cases.append((rng.choice(ks), rng.choice(ks), rng.choice(DEP_OFFS), rng.choice(DEP_OFFS),
+                      rng.choice(DEP_LENS + [None]), rng.choice(DEP_LENS + [None])))
+    return cases
+
+
+def _size(kind, length):
+    return 1 if "mstore8" in kind else (length if "keccak" in kind else 32)
+
+
+def dep_stage(run, rng, dist, proof_ok):
+    """(a) Python are_dependent == regenerated Coq definition on a grid (vm_compute);
+    (b) ground truth: 'independent' with a write involved only for disjoint ranges / different keys -- this is the
+    search for a failing input when the theorem or the translation no longer checks."""
+    quick = run.tier == "quick"
+    cases = _dep_cases(rng, 2500 if quick else 12000)
+    chunks = [cases[i:i + 400] for i in range(0, len(cases), 400)]
+    res = gasol.pmap(_dep_worker, chunks, init=pipeline._init, initargs=(["-greedy"],), timeout=120)
+    py = []
+    for ch, (st, v) in zip(chunks, res):
+        py += v if st == "ok" else ["EXC worker %s" % st] * len(ch)
+    dist["dep:python-evaluations"] = len(py)
+    nviol = 0
+    for (k1, k2, a1, a2, l1, l2), r in zip(cases, py):
+        if isinstance(r, str):
+            dist["dep:python-raised"] += 1
+            continue
+        write = "store" in k1 or "store" in k2
+        if k1.startswith("s") != k2.startswith("s"):
+            continue
+        if not write or r:
+            continue
+        if k1.startswith("s"):
+            bad = a1 == a2
+            lens = [(0, 0)]
+        else:
+            # a symbolic length stands for every length: try a few
+            c1 = [l1] if l1 is not None else [0, 1, 32, 64, 4096]
+            c2 = [l2] if l2 is not None else [0, 1, 32, 64, 4096]
+            lens = [(x, y) for x in c1 for y in c2]
+            bad = any(max(a1, a2) < min(a1 + _size(k1, x), a2 + _size(k2, y)) for x, y in lens)
+        if bad and nviol < 5:
+            nviol += 1
+            run.report({"kind": "overlapping-accesses-independent", "kinds": "%s/%s" % (k1, k2)},
+                       "are_dependent answers independent for %s at %s and %s at %s (lengths %s, %s) although the ranges overlap / the keys are equal"
+                       % (k1, a1, k2, a2, l1, l2),
+                       {"kind": "are_dependent", "call": {"t1": list(_dep_tuple(k1, a1, l1)[0]), "t2": list(_dep_tuple(k2, a2, l2)[0])},
+                        "python_result": r, "theorem": "C02_const_dependence_sound_mem/_sto (Props/C02.v)"}, found_input=True)
+    if not proof_ok:
+        return nviol
+    # (a) differential tie with the regenerated definition
+    def coq_case(c):
+        k1, k2, a1, a2, l1, l2 = c
+        return '(are_dependent_const "%s" "%s" %d %d %s %s %d %d)' % (
+            k1, k2, a1, a2, "true" if l1 is None else "false", "true" if l2 is None else "false", l1 or 0, l2 or 0)
+    hdr = ("From Coq Require Import ZArith List Bool String.\nImport ListNotations.\n"
+           "From GV Require Import Model.DepPrelude Gen.DepConst.\nOpen Scope string_scope.\nOpen Scope Z_scope.\n")
+    files = []
+    per = 500
+    for f0 in range(0, len(cases), per):
+        body = hdr + "Eval vm_compute in [%s].\n" % "; ".join(coq_case(c) for c in cases[f0:f0 + per])
+        files.append(("c02dep_%d_%d" % (os.getpid(), f0 // per), body))
+    outs = common.run_cases_parallel(files, timeout=600)
+    coq = []
+    for name, _ in files:
+        okc, out = outs[name]
+        if not okc:
+            run.report({"kind": "cases-broken"}, "the dependence cases file did not evaluate: %s" % out[-300:], {"output": out[-1500:]}, found_input=False)
+            return nviol
+        vals = common.parse_eval_list(out)
+        coq += [x == "true" for x in re.findall(r"\b(true|false)\b", " ".join(vals))]
+        for ext in (".v", ".vo", ".glob", ".vos", ".vok"):
+            try:
+                os.remove(os.path.join(common.COQ, "Cases", name + ext))
+            except OSError:
+                pass
+    if len(coq) != len(cases):
+        run.report({"kind": "cases-broken"}, "unexpected number of results from the dependence cases (%d for %d)" % (len(coq), len(cases)), {}, found_input=False)
+        return nviol
+    dis = 0
+    for c, p, q in zip(cases, py, coq):
+        if isinstance(p, str):
+            continue
+        if c[0].startswith("s") != c[1].startswith("s"):
+            continue
+        if p != q:
+            dis += 1
+            if dis <= 3:
+                run.report({"kind": "dependence-model-differs"}, "are_dependent%s = %s but the regenerated model gives %s" % (c, p, q),
+                           {"kind": "are_dependent", "case": list(c), "python": p, "model": q}, found_input=True)
+    dist["dep:compared-with-model"] = len(cases)
+    dist["dep:disagreements"] = dis
+    return nviol
+
+
 def check(run):
     rng = random.Random(run.seed)
-    ok = common.proof_stage(run, "Props/C02.v")
+
+    def gen(r):
+        from gen import gen_dep
+        gen_dep.generate(r)
+    ok = common.proof_stage(run, "Props/C02.v", gen=gen)
     run.cov["trusted_base"] += [
         "reference semantics Ref/Word.v, Ref/EVM.v",
         "harness/sfs2coq.py, harness/speccheck.py, harness/evmconv.py (SFS JSON and opcode names -> Coq terms; schedule enumeration)",
         "original_instrs of a specification is taken as the sub-block's instruction list (checked against the block by C16)",
-        "the schedule quantifier is enumerated (all admissible schedules up to 24 per specification), not proved"]
-    if not ok:
-        run.report({"kind": "proof-broken"}, "proof obligations of C02 no longer check: %s" % (run.proof_broken,),
-                   {"theorem": "C02_spec_denotes_block (Props/C02.v)", "detail": run.proof_broken}, found_input=False)
-        return
+        "the schedule quantifier is enumerated (all admissible schedules up to 24 per specification), not proved",
+        "gen/gen_dep.py: the constant-offset decision of are_dependent is translated under the assumptions extra_dep_info = {} "
+        "(no external non-aliasing analysis) and integer offsets; instruction names as the front end builds them (mload<n>, keccak256<n>)"]
     dist = Counter()
+    if not ok:
+        # which input fails?  the dependence decision is searched directly on the implementation
+        found = dep_stage(run, rng, dist, False)
+        if not found:
+            run.report({"kind": "proof-broken"}, "proof obligations of C02 no longer check: %s" % (run.proof_broken,),
+                       {"theorem": "C02_spec_denotes_block / C02_const_dependence_sound_* (Props/C02.v)", "detail": run.proof_broken}, found_input=False)
+        return
+    dep_stage(run, rng, dist, True)
     cases = gather(run, rng, dist)
     # distinct specifications only
     seen, ucases = set(), []
@@ -128,6 +284,18 @@ def replay(run, path):
     with open(path) as fh:
         d = json.load(fh)
     rp = d["replay"]
+    if rp.get("kind") == "are_dependent":
+        # the call on the implementation; exit 1 when it still answers independent for overlapping accesses
+        t1, t2 = rp["call"]["t1"], rp["call"]["t2"] if "call" in rp else (None, None)
+        if "call" not in rp:
+            print("model/implementation disagreement:", rp)
+            return 1
+        k1, k2 = t1[-1], t2[-1]
+        l1 = t1[1] if "keccak" in k1 and not str(t1[1]).startswith("s") else None
+        l2 = t2[1] if "keccak" in k2 and not str(t2[1]).startswith("s") else None
+        res = gasol.pmap(_dep_worker, [[(k1, k2, t1[0], t2[0], l1, l2)]], init=pipeline._init, initargs=(["-greedy"],), timeout=60)
+        print("are_dependent(%s, %s) ->" % (t1, t2), res)
+        return 1 if res[0][0] == "ok" and res[0][1][0] is False else 0
     res = speccheck.run_frontend([rp["block"]], ["-greedy"] + rp.get("options", []))
     st, v = res[0]
     if st != "ok":
